@@ -3,8 +3,8 @@ candles only (never from Hexital's helper series). Values are Num(value, err); N
 ANY = the definition does not pin the value down (0/0-like quotient).
 
 r = the indicator's own round_value; H = decimals at which a correct implementation may store the
-intermediate series its definition names (Hexital keeps helpers at 4 decimals; a refactor that passes
-round_value down would use r) => H = min(4, r).
+intermediate series its definition names: the finer of 4 decimals and r, H = max(4, r) - an intermediate series stored more
+coarsely than the result it feeds puts more error into that result than 'the configured rounding' accounts for.
 """
 from __future__ import annotations
 
@@ -171,14 +171,15 @@ def counter(xs, val):
 
 class SupertrendRef:
     """Stepper: bands HL2 +- m*ATR that only ratchet in the trend direction; flip when the close breaks the
-    previous band. Where a comparison is closer than the error bounds both outcomes are admissible and the
-    reference follows the implementation's choice (near tie)."""
+    previous band. Where a comparison is closer than the error bounds both outcomes are admissible; the reference keeps EVERY
+    internal state that is consistent with what the implementation has shown (its rounded output may not reveal the choice)."""
 
     def __init__(self, h, l, c, p, mult, r, H):
         self.h, self.l, self.c, self.mult, self.r, self.H = h, l, c, mult, r, H
         self.atr = atr(h, l, c, p, H, H)
         self.pu = self.pl = None
         self.pd = 1
+        self.states = []  # internal (upper, lower, direction) states consistent with everything the implementation has shown so far
         self.near_ties = 0
         self.exact_ties = 0
         # exact region: a prefix of candles that are all flat at one price P on the storage grid. There every true range, hence ATR,
@@ -190,7 +191,40 @@ class SupertrendRef:
                 k += 1
         self.flat_upto = k
 
+    def _from_state(self, i, state, up0, lo0):
+        pu, pl, pd = state
+        c = Num.of(self.c[i])
+        cu, cl = c.cmp(pu), c.cmp(pl)
+        dirs = []
+        if cu >= 0:
+            dirs.append(("up", 1))
+        if cu <= 0:
+            if cl <= 0:
+                dirs.append(("down", -1))
+            if cl >= 0:
+                dirs.append(("keep", pd))
+        out = []
+        for kind, d in dirs:
+            if kind != "keep":
+                out.append((d, up0, lo0))
+                continue
+            if d == 1:
+                k = lo0.cmp(pl)
+                if k <= 0:
+                    out.append((d, up0, pl))
+                if k >= 0:
+                    out.append((d, up0, lo0))
+            else:
+                k = up0.cmp(pu)
+                if k >= 0:
+                    out.append((d, pu, lo0))
+                if k <= 0:
+                    out.append((d, up0, lo0))
+        return out
+
     def candidates(self, i):
+        """every (direction, upper, lower) the definition admits at i, from every internal state still consistent with what the
+        implementation has shown so far (the visible output, rounded at r, may not tell which side of a near tie it took)"""
         a = self.atr[i]
         if not ok(a):
             return None
@@ -202,56 +236,43 @@ class SupertrendRef:
         up0, lo0 = mid + self.mult * a, mid - self.mult * a
         if self.pl is None:
             return [(1, up0, lo0)]
-        c = Num.of(self.c[i])
-        cu, cl = c.cmp(self.pu), c.cmp(self.pl)
-        dirs = []
-        if cu >= 0:
-            dirs.append(("up", 1))
-        if cu <= 0:
-            if cl <= 0:
-                dirs.append(("down", -1))
-            if cl >= 0:
-                dirs.append(("keep", self.pd))
-        out = []
-        for kind, d in dirs:
-            if kind != "keep":
-                out.append((d, up0, lo0))
-                continue
-            if d == 1:
-                k = lo0.cmp(self.pl)
-                if k <= 0:
-                    out.append((d, up0, self.pl))
-                if k >= 0:
-                    out.append((d, up0, lo0))
-            else:
-                k = up0.cmp(self.pu)
-                if k >= 0:
-                    out.append((d, self.pu, lo0))
-                if k <= 0:
-                    out.append((d, up0, lo0))
+        out, seen = [], set()
+        for st_ in self.states:
+            for cnd in self._from_state(i, st_, up0, lo0):
+                key = (cnd[0], cnd[1].v, cnd[2].v)
+                if key not in seen:
+                    seen.add(key)
+                    out.append(cnd)
         return out
 
+    def restart(self):
+        self.pu = self.pl = None
+        self.states = []
+
     def step(self, i, got):
-        """got = implementation's reading dict at i; returns (expected dict of Num/None/int, matched?)"""
+        """got = implementation's reading dict at i; returns (expected dict of Num/None/int for the admissible candidate closest to
+        the implementation, number of candidates)"""
         cands = self.candidates(i)
         if cands is None:
             return {"trend": None, "direction": 1, "long": None, "short": None}, None
         if len(cands) > 1:
             self.near_ties += 1
-        best, best_d = None, None
+        exact = i <= self.flat_upto
+        gt = got.get("trend") if isinstance(got, dict) and isinstance(got.get("trend"), (int, float)) else None
+        gd = got.get("direction") if isinstance(got, dict) else None
+        scored = []
         for d, up, lo in cands:
             trend = lo if d == 1 else up
-            dist = abs((got.get("trend") if isinstance(got, dict) and isinstance(got.get("trend"), (int, float)) else 1e300) - trend.v)
-            if isinstance(got, dict) and got.get("direction") != d:
-                dist += 1e200
-            if best is None or dist < best_d:
-                best, best_d = (d, up, lo), dist
-        d, up, lo = best
+            shown = trend if (exact and round(trend.v, self.r) == trend.v) else trend.st(self.r)
+            dist = abs((gt if gt is not None else 1e300) - trend.v) + (1e200 if gd != d else 0.0)
+            fits = gd == d and gt is not None and abs(gt - shown.v) <= 4 * shown.e + 1e-9 * abs(shown.v)
+            scored.append((dist, fits, d, up, lo, shown))
+        scored.sort(key=lambda t: t[0])
+        _, _, d, up, lo, shown = scored[0]
         self.pu, self.pl, self.pd = up, lo, d
-        trend = (lo if d == 1 else up)
-        if not (i <= self.flat_upto and round(trend.v, self.r) == trend.v):
-            trend = trend.st(self.r)
-        return {"trend": trend, "direction": d, "long": trend if d == 1 else None, "short": trend if d == -1 else None}, len(cands)
+        keep = [(u_, l_, d_) for _, fits, d_, u_, l_, _ in scored if fits][:8]
+        self.states = keep or [(up, lo, d)]
+        return {"trend": shown, "direction": d, "long": shown if d == 1 else None, "short": shown if d == -1 else None}, len(cands)
 
 
 def stdevthres(xs, p, mult, H):
